@@ -1,0 +1,97 @@
+//go:build verif
+
+// Contracts for govc (see /verif/DESIGN.md). Comment-only; compiled only with -tags verif.
+
+package tredactemail
+
+//@ property C14 C07
+
+// character classes of the statement: local part and domain = letters, digits and . - _ ; the characters next to '@' and
+// after the domain's dot = letters and digits
+//@ pure func isword(c int) bool := (65 <= c && c <= 90) || (97 <= c && c <= 122) || (48 <= c && c <= 57)
+//@ pure func isaddr(c int) bool := isword(c) || c == 46 || c == 45 || c == 95
+//@ global len(validAddressChars) == 256 && len(validWordChars) == 256
+//@ global forall c int :: 0 <= c && c < 256 ==> (validWordChars[c] <==> isword(c)) && (validAddressChars[c] <==> isaddr(c))
+
+// the tables are filled by the package initialiser: proved here, assumed (as the global invariant above) everywhere else
+//@ func init#1()
+//@   flag noglobals noframe
+//@   requires len(validAddressChars) == 256 && len(validWordChars) == 256 && ref(validAddressChars) != ref(validWordChars)
+//@   requires forall c int :: 0 <= c && c < 256 ==> !validWordChars[c] && !validAddressChars[c]
+//@   modifies validAddressChars[:], validWordChars[:]
+//@   ensures  forall c int :: 0 <= c && c < 256 ==> (validWordChars[c] <==> isword(c)) && (validAddressChars[c] <==> isaddr(c))
+//@   loop 1: invariant 65 <= c && c <= 91 && forall k int :: 0 <= k && k < 256 ==> (validWordChars[k] <==> 65 <= k && k < c) && (validAddressChars[k] <==> 65 <= k && k < c)
+//@   loop 2: invariant 97 <= c#2 && c#2 <= 123 && forall k int :: 0 <= k && k < 256 ==> (validWordChars[k] <==> (65 <= k && k <= 90) || (97 <= k && k < c#2)) && (validAddressChars[k] <==> (65 <= k && k <= 90) || (97 <= k && k < c#2))
+//@   loop 3: invariant 48 <= c#3 && c#3 <= 58 && forall k int :: 0 <= k && k < 256 ==> (validWordChars[k] <==> (65 <= k && k <= 90) || (97 <= k && k <= 122) || (48 <= k && k < c#3)) && (validAddressChars[k] <==> (65 <= k && k <= 90) || (97 <= k && k <= 122) || (48 <= k && k < c#3))
+
+// cand(s, q): an '@' with a word character on both sides (the pre-filter of the scan)
+//@ pure func cand(s string, q int) bool := 0 < q && q < len(s) - 1 && s[q] == 64 && isword(s[q-1]) && isword(s[q+1])
+
+// numeric domain. By the letter of the statement a domain is "purely numeric" when it consists of digits and dots only; the
+// code's test looks at the first and last character. [by-the-letter] is the statement's reading, [numeric-recognised]
+// and [only-digit-ended] are the two directions that hold.
+//@ pure func purelynumeric(s string) bool := forall i int :: 0 <= i && i < len(s) ==> (48 <= s[i] && s[i] <= 57) || s[i] == 46
+//@ func redactEmailCheckNumber(s string) bool
+//@   ensures[numeric-recognised] len(s) >= 2 && isdig(s[0]) && isdig(s[len(s)-1]) ==> result
+//@   ensures[only-digit-ended] result ==> len(s) >= 2 && isdig(s[0]) && isdig(s[len(s)-1])
+//@   ensures[by-the-letter] len(s) >= 2 ==> (result <==> purelynumeric(s))
+
+// local part: the maximal run of address characters ending at the '@' (not reaching before limitStart); not an address
+// when the run is directly preceded by '/'
+//@ func redactFindEmailStart(src string, atIndex int, limitStart int) int
+//@   requires 0 <= limitStart && limitStart <= atIndex && atIndex <= len(src)
+//@   ensures  result == -1 || (limitStart <= result && result <= atIndex)
+//@   ensures[run-of-address-chars] result != -1 ==> (forall k int :: result <= k && k < atIndex ==> isaddr(src[k])) && (result == limitStart || !isaddr(src[result-1]))
+//@   ensures[not-after-slash] result != -1 ==> !(result >= 1 && src[result-1] == 47)
+//@   ensures[rejected-only-after-slash] result == -1 ==> exists s int :: limitStart <= s && s <= atIndex && s >= 1 && src[s-1] == 47
+//@                                       && (forall k int :: s <= k && k < atIndex ==> isaddr(src[k])) && (s == limitStart || !isaddr(src[s-1]))
+//@   loop 1: invariant limitStart - 1 <= i && i <= atIndex - 1 && forall k int :: i < k && k < atIndex ==> isaddr(src[k])
+//@   loop 1: decreases i + 1
+
+// domain: address characters up to the first dot, which must be followed by a word character (or end the text:
+// truncated), then the maximal run of address characters; -1 when that is not the shape or the domain looks numeric
+//@ func redactFindEmailEnd(src string, atIndex int) int
+//@   requires 0 <= atIndex && atIndex < len(src)
+//@   ensures  result == -1 || (atIndex < result && result <= len(src))
+//@   ensures[span-of-address-chars] result != -1 ==> (forall k int :: atIndex < k && k < result ==> isaddr(src[k])) && (result == len(src) || !isaddr(src[result]))
+//@   ensures[dotted-unless-truncated] result != -1 && result < len(src) ==> exists d int :: atIndex < d && d + 1 < result && src[d] == 46 && isword(src[d+1])
+//@   ensures[truncated-domain-accepted] (forall k int :: atIndex < k && k < len(src) ==> isaddr(src[k]) && src[k] != 46) && !(len(src) - atIndex - 1 >= 2 && isdig(src[atIndex+1]) && isdig(src[len(src)-1])) ==> result == len(src)
+//@   loop 1: invariant atIndex + 1 <= i && i <= len(src) && dotIndex == -1 && forall k int :: atIndex < k && k < i ==> isaddr(src[k]) && src[k] != 46
+//@   loop 1: decreases len(src) - i
+//@   loop 2: invariant dotIndex + 2 <= endIndex && endIndex <= len(src) && forall k int :: dotIndex + 1 < k && k < endIndex ==> isaddr(src[k])
+//@   loop 2: decreases len(src) - endIndex
+
+// the pre-filter returns the LEAST candidate, or -1 when there is none ("text containing no such address is unchanged")
+//@ func redactEmailFindFirst(src string) int
+//@   ensures[least-candidate] result != -1 ==> cand(src, result) && forall q int :: 0 <= q && q < result ==> !cand(src, q)
+//@   ensures[none] result == -1 ==> forall q int :: 0 <= q && q < len(src) ==> !cand(src, q)
+//@   loop 1: invariant sEnd == len(src) - 1 && -1 <= sAt && sAt <= len(src) && (sAt >= 0 && sAt < len(src) ==> src[sAt] == 64) && (sAt == -1 ==> forall q int :: 0 <= q && q < len(src) ==> src[q] != 64)
+//@   loop 1: invariant forall q int :: 0 <= q && q < sAt ==> !cand(src, q)
+//@   loop 1: decreases len(src) - sAt
+
+// scanend: ghost — where the scan for '@' stopped
+//@ ghost var scanend int
+//@ pure func redactedat(d []byte, p int) bool :=
+//@     d[p] == 82 && d[p+1] == 69 && d[p+2] == 68 && d[p+3] == 65 && d[p+4] == 67 && d[p+5] == 84 && d[p+6] == 69 && d[p+7] == 68
+
+//@ func redactEmail1(src string, start int) (string, int)
+//@   requires 0 < start && start < len(src) && src[start] == 64
+//@   modifies scanend
+//@   ghostset scanend := sAt
+//@   ensures  result.1 >= 0
+//@   ensures[scan-reaches-the-end] forall q int :: scanend <= q && q < len(src) - 1 ==> src[q] != 64
+//@   loop 1: invariant sEnd == len(src) - 1 && 0 <= sCopied && sCopied <= sAt && sAt < len(src) && src[sAt] == 64 && numRedacted >= 0 && start <= sAt && isfresh(dst)
+//@   loop 1: step[no-at-sign-skipped] forall q int :: prev(sAt) < q && q < sAt ==> src[q] != 64 || q < sCopied
+//@   loop 1: step[written-output-kept] len(dst) >= prev(len(dst)) && forall i int :: 0 <= i && i < prev(len(dst)) ==> dst[i] == prev(dst[i])
+//@   loop 1: step[nothing-appended-without-a-redaction] numRedacted == prev(numRedacted) ==> len(dst) == prev(len(dst)) && sCopied == prev(sCopied)
+//@   loop 1: step[one-redaction-per-step] numRedacted != prev(numRedacted) ==> numRedacted == prev(numRedacted) + 1 && len(dst) >= prev(len(dst)) + 8
+//@                                       && prev(sCopied) + (len(dst) - prev(len(dst)) - 8) <= prev(sAt) && prev(sAt) < sCopied
+//@   loop 1: step[text-before-the-address-copied-verbatim] forall i int :: 0 <= i && i < len(dst) - prev(len(dst)) - 8 ==> dst[prev(len(dst)) + i] == src[prev(sCopied) + i]
+//@   loop 1: step[marker-appended] numRedacted != prev(numRedacted) ==> redactedat(dst, len(dst) - 8)
+//@   loop 1: step[redacted-span-is-address-shaped] numRedacted != prev(numRedacted) ==>
+//@        forall k int :: prev(sCopied) + (len(dst) - prev(len(dst)) - 8) <= k && k < sCopied ==> isaddr(src[k]) || k == prev(sAt)
+//@   loop 1: decreases len(src) - sAt
+
+//@ func redactEmail(src string) string
+//@   modifies scanend
+//@   ensures[no-candidate-unchanged] (forall q int :: 0 <= q && q < len(src) ==> !cand(src, q)) ==> result === src
